@@ -1237,16 +1237,20 @@ func (rs RangeSorter) Normalize() RangeSorter {
 				continue
 			}
 			// Check for full or partial overlap
-			if rs[prev].Hi > 0 && rs[prev].Hi+1 >= rs[i].Low {
+			if rs[prev].Hi > 0 && rs[prev].Hi >= rs[i].Low {
 				// Partial overlap
 				if rs[prev].Hi < rs[i].Hi {
 					rs[prev].Hi = rs[i].Hi
+				} else if rs[i].Hi == 0 && rs[prev].Hi == rs[i].Low {
+					// A single ID right at the exclusive upper bound of the previous range: extend the range.
+					rs[prev].Hi = rs[i].Low + 1
 				}
 				// Otherwise the next range is fully within the previous range, consume it by doing nothing.
 				continue
 			}
 			// No overlap
 			prev++
+			rs[prev] = rs[i]
 		}
 		rs = rs[:prev+1]
 	}
